@@ -40,7 +40,7 @@ GEN_THEOREMS = ["OmplModel.Generated.SharedAccess.plain_members", "OmplModel.Gen
                 "OmplModel.Generated.SharedAccess.surface_add_clear_linearizable",
                 "OmplModel.Generated.SharedAccess.surface_seeds_distinct",
                 "OmplModel.Generated.SharedAccess.planner_fields_guarded"]
-TSAN_ENV = {"TSAN_OPTIONS": "halt_on_error=0:exitcode=0:history_size=4:second_deadlock_stack=1:report_thread_leaks=0"}
+TSAN_ENV = {"TSAN_OPTIONS": "halt_on_error=0:exitcode=0:history_size=7:second_deadlock_stack=1:report_thread_leaks=0"}
 PLANNERS = ["pRRT", "pSBL", "CForest", "PRM", "APS"]
 
 # which surface op exercises which extracted member (used to turn a `plain` verdict into a forced observation)
@@ -479,7 +479,7 @@ def benign(site, texts):
 
 
 def short_func(func):
-    f = re.sub(r"\(.*$", "", func)
+    f = re.sub(r"\(.*$", "", func).replace("[abi:cxx11]", "")
     f = re.sub(r"<[^<>]*>", "", f)
     f = re.sub(r"<[^<>]*>", "", f)
     f = f.replace("ompl::base::", "").replace("ompl::geometric::", "").replace("ompl::msg::", "msg::").replace("ompl::", "")
@@ -772,6 +772,7 @@ def run(ck):
                         "decl_type": "guarded by " + f["mutex"], "kind": "plain" if f["unguarded"] else "mutexGuarded",
                         "sites": f["worker_sites"], "unguarded": f["unguarded"], "planner_field": True})
     plain_members = [m for m in members if m["kind"] == "plain"]
+    planner_field_names = set(f["name"] for f in fields)
     for m in members:
         if not m.get("planner_field"):
             ck.count("member-kind:" + m["kind"])
@@ -849,7 +850,8 @@ def run(ck):
                 if member is None and not in_ompl:
                     ck.count("tsan-ignored:not-in-ompl-code")
                     continue
-                if member is None and rep["kind"] == "data race":
+                if (member is None or member in planner_field_names) and rep["kind"] == "data race":
+                    # (the allowlisted hint reads are on fields of the planner tables too: sol->solution, sol->found, …)
                     why = benign(site, rep.get("texts", []))
                     if why is not None:
                         suppressed[site] = suppressed.get(site, 0) + 1
@@ -904,7 +906,8 @@ def run(ck):
     for key, e in sorted(races.items()):
         if e["member"] in reported_members:
             continue
-        rec = {"engine": "conc", "kind": "tsan-" + e["kind"].replace(" ", "-"), "member": e["member"], "site": e["site"]}
+        rec = {"engine": "conc", "kind": "tsan-" + e["kind"].replace(" ", "-"), "member": e["member"], "site": e["site"],
+               "op": e["res"]["op"] if not e["res"]["op"].startswith("planner") else "planner " + e["res"]["op"].split()[1]}
         ck.report(rec, script=e["res"]["script"],
                   expected="no ThreadSanitizer report in OMPL code on the documented thread-safe surface",
                   observed={"summary": e["summary"], "reports": e["count"], "site": e["site"], "member": e["member"],
@@ -968,17 +971,31 @@ MANIFEST = {
     "design_ref": "DESIGN.md 2.19",
     "text": "PROOF part: Lean 4 theorems over an interleaving semantics (threads = lists of atomic steps; plain read-modify-write = "
             "two steps, atomic or mutex-guarded = one) quantified over every scheduler: atomic counters end at exactly N*m, plain "
-            "counters have a losing schedule for every N>=2,m>=1, guarded solution adds are linearizable, guarded nextSeed hands out "
-            "distinct stream positions, a termination request is seen by every later evaluation, pRRT's worker loop at lock "
-            "granularity keeps 'every tree edge was answered valid' under every interleaving; the access kind of every shared member "
-            "of the documented surface is extracted from the current source on every run and the generated obligation "
-            "surface_no_plain is closed by decide. EXPLORATION part (not a theorem): 2-16 threads hammer each surface in an "
-            "ASan/UBSan and a ThreadSanitizer build, multi-threaded planners run under schedule perturbation and are judged by a path "
-            "oracle; schedules are sampled.",
-    "note": "Trusted: Lean kernel and the three standard axioms; the granularity assumption (std::atomic ops and lock_guard regions "
-            "are indivisible; the C++ memory model is not modelled); the regex extractor (errs towards plain, cross-checked by forced "
-            "lost updates / TSan); TSan and the sampled schedules for everything about real data races and the planners other than "
-            "pRRT's lock discipline; allowlisted planner-internal hint races are listed with reasons in checks/c19.py.",
+            "counters have a losing schedule for every N>=2,m>=1, guarded solution adds (and adds mixed with clears) are linearizable "
+            "while the optimistic split add is not, guarded nextSeed hands out distinct stream positions, a termination request is seen "
+            "by every later evaluation (direct and periodic form; the cache-only periodic variant loses it), pRRT's worker loop at lock "
+            "granularity keeps 'every tree edge was answered valid' under every interleaving, PRM's repaired solution thread reads "
+            "component answer and states from one storage, CForest's solution monitor keeps the best cost monotone and equal to the "
+            "minimum reported (check-then-act outside the lock does not). EXTRACTION, regenerated from the current source on every "
+            "run: access kind of every shared member of the documented surface (obligation surface_no_plain) and, for the "
+            "multi-threaded planners and helpers (CForest, CForestStateSampler, pRRT, pSBL, PRM, AnytimePathShortening, ParallelPlan, "
+            "GoalLazySamples: table plannerFields), the lock held at every worker-thread access of every shared field (obligation "
+            "planner_fields_guarded), both closed by decide. EXPLORATION part (not a theorem): 2-16 threads hammer each surface in an "
+            "ASan/UBSan and a ThreadSanitizer build; directed schedules force specific interleavings by handshake (solrace, "
+            "terminate form 2, cfrace: two real CForest instances reporting through newSolutionFound with the worse report held inside "
+            "the cost comparison; cfsamplers: a CForest instance held in its lazy sampler registration while another shares solutions, "
+            "with a thread polling the progress properties); multi-threaded planners run under schedule perturbation and are judged by "
+            "a path oracle (gap form for all, strict form for pRRT/pSBL/CForest/PRM); schedules are sampled.",
+    "note": "Trusted: Lean kernel and the three standard axioms; the granularity assumption (std::atomic ops and lock scopes are "
+            "indivisible; the C++ memory model is not modelled); the regex extractor (errs towards plain/unguarded, cross-checked by "
+            "forced lost updates, directed schedules and TSan); TSan (g++ 12 libtsan) and the sampled schedules for everything about "
+            "real data races. NAMED LIMITATION of that observer: g++'s TSan pass does not instrument a class-type argument passed by "
+            "value straight from memory (e.g. base::Cost members handed to OptimizationObjective::isCostBetterThan: CForest, PRM, "
+            "AnytimePathShortening bestCost_), so such reads are invisible to the race detector; cfrace compensates with an "
+            "instrumented proxy read at the comparison point, elsewhere only the extraction sees them. Seq_cst counters shared by "
+            "all workers (the motion validator's valid_/invalid_ since the F8a fix) order the workers at every motion check and "
+            "thereby narrow what TSan can report in planner runs; the harness's own counters are relaxed for that reason. "
+            "Allowlisted planner-internal hint races are listed with reasons in checks/c19.py (BENIGN); recorded findings F37, F39, F191.",
     "technique": "Lean 4 proof (induction over schedulers, inductive invariants) + source extraction closed by decide + "
-                 "ThreadSanitizer/stress exploration with spec oracles",
+                 "directed schedules + ThreadSanitizer/stress exploration with spec oracles",
 }
